@@ -7,7 +7,6 @@ package c01
 
 import (
 	"fmt"
-	"os"
 	"regexp"
 	"strings"
 	"testing"
@@ -199,6 +198,10 @@ var templates = []string{
 	// script goroutines that share nothing but the interpreter: each keeps defining functions of many parameters
 	"go func() { for ci = 0; ci < 200; ci++ { fa = func(%p) { return 1 } } }()\ngo func() { for ck = 0; ck < 200; ck++ { fb = func(%p) { return 2 } } }()\nfor cj = 0; cj < 200; cj++ { fc = func(%p) { return 3 } }",
 	"func mk1() { return func(%p) { return 1 } }\nfunc mk2() { return func(%p) { return 2 } }\ngo mk1()\ngo mk2()\ngo mk1()\nmk2()",
+	// the same with parameter counts up to 125 (%P: a list of 8 to 20 function literals of drawn parameter counts): the calling
+	// goroutine defines functions of counts not seen before while script goroutines keep defining a function of one count
+	"func rd() { for ck = 0; ck < 400; ck++ { func(%p) { return 0 } } }\ngo rd()\ngo rd()\ngo rd()\nfor cw = 0; cw < 150; cw++ { }\n%P", "func rd() { for ck = 0; ck < 400; ck++ { func(%p) { return 0 } } }\ngo rd()\ngo rd()\n%P",
+	"func mk() { return %P }\ngo mk()\ngo mk()\ngo mk()\nmk()", "go func() { %P }()\ngo func() { %P }()\n%P",
 	"try { %s(%s) } catch e { e.Error() }", "try { throw %s } catch e { e = %s }", "module m2 { a = %s }; m2.a(%s)", "x = %s; x.y = %s", "x = %s; x[0] = %s; x",
 	// seventh round. (a) types whose values are large (%B defines BT, 8 bytes .. 1 MiB, without allocating one) in every type form
 	"%B\nmake(chan BT)", "%B\nmake(chan BT, %s)", "%B\nnew(chan BT)", "%B\n[]chan BT{}", "%B\nmake([]chan BT, 1)", "%B\nmake(map[string]chan BT)", "%B\nmake(map[BT]string)", "%B\nmake(struct{A chan BT, B BT})", "%B\nmake(*BT)", "%B\nmake([]BT, 0)", "%B\nmake(type BU, make(chan BT))",
@@ -349,18 +352,21 @@ func (c *Case) fill(t *rapid.T, tmpl string) string {
 				i++
 				continue
 			}
+			if tmpl[i+1] == 'P' {
+				// a list of 8..20 function literals, each of 5..125 parameters (half of them with a variadic tail)
+				k := 8 + int(rapid.Uint64().Draw(t, "nliterals")%13)
+				var lits []string
+				for j := 0; j < k; j++ {
+					lits = append(lits, "func("+c.paramList(t, 5+int(rapid.Uint64().Draw(t, "nparams")%131))+") { return 1 }")
+				}
+				c.Tags = append(c.Tags, "many-parameter-literals")
+				b.WriteString("[" + strings.Join(lits, ", ") + "]")
+				i++
+				continue
+			}
 			if tmpl[i+1] == 'p' {
 				// a parameter list of 5..20 names (half of the time with a variadic tail)
-				n := 5 + int(rapid.Uint64().Draw(t, "nparams")%16)
-				var ps []string
-				for k := 0; k < n; k++ {
-					ps = append(ps, fmt.Sprintf("q%d", k))
-				}
-				list := strings.Join(ps, ", ")
-				if rapid.Bool().Draw(t, "variadic") {
-					list += "..."
-				}
-				b.WriteString(list)
+				b.WriteString(c.paramList(t, 5+int(rapid.Uint64().Draw(t, "nparams")%16)))
 				i++
 				continue
 			}
@@ -378,6 +384,25 @@ func (c *Case) fill(t *rapid.T, tmpl string) string {
 		b.WriteByte(tmpl[i])
 	}
 	return b.String()
+}
+
+// paramList gives n parameter names, half of the time with a variadic tail. A function of 126 or more parameters
+// makes the unchanged interpreter panic (reflect.FuncOf: too many arguments, a defect reported separately): that
+// shape is excluded by construction, the count is cut to 125 and the cut is counted.
+func (c *Case) paramList(t *rapid.T, n int) string {
+	if n > 125 {
+		n = 125
+		c.Tags = append(c.Tags, "excluded-shape_function-of-126-or-more-parameters_cut-to-125")
+	}
+	var ps []string
+	for k := 0; k < n; k++ {
+		ps = append(ps, fmt.Sprintf("q%d", k))
+	}
+	list := strings.Join(ps, ", ")
+	if rapid.Bool().Draw(t, "variadic") {
+		list += "..."
+	}
+	return list
 }
 
 func genOperand(t *rapid.T, depth int) string {
@@ -561,19 +586,8 @@ func TestC01(t *testing.T) {
 		}
 	}()
 	c.Rule(fmt.Sprintf("every case is parsed and run with Options{} (debug=false) in a sandbox worker process, in an environment of script-constructible values plus Go functions over such values (core builtins, id, a panicking function, typed/variadic/array/callback-taking functions, a small import table). targeted: %d statement templates (every assignment target form, empty right-hand sides, calls/go/defer with 0..n and spread arguments, for-in, switch, delete/close/send/receive, make/new with every type form incl. dotted paths, typed literals, import, every operator, index/slice/member, throw, op=) filled from %d operand expressions of every value kind and provenance; wild: whole programs from the full-grammar generator after a value-universe prelude; mutated: token soups, random bytes, truncations/deletions/insertions/duplications of valid programs; scopes: programs in which two script goroutines share nothing but one variable of an enclosing scope of every form (one side keeps assigning to it, the other deletes it). non-trivial = the source parsed and was executed (ok or run-time error); distinct by source text", len(templates), len(operands)))
-	if os.Getenv("C01_OLD") != "" {
-		var old []string
-		for _, tm := range templates {
-			if !strings.Contains(tm, "%W") && !strings.Contains(tm, "%U") {
-				old = append(old, tm)
-			}
-		}
-		templates = old
-	}
 	h.Run(c, "targeted", c.N(20000, 250000), genTargeted, oracle)
 	h.Run(c, "wild", c.N(12000, 150000), genWild, oracle)
 	h.Run(c, "mutated", c.N(8000, 100000), genMutated, oracle)
-	if os.Getenv("C01_OLD") == "" {
-		h.Run(c, "scopes", c.N(300, 4000), genScopes, oracle)
-	}
+	h.Run(c, "scopes", c.N(300, 4000), genScopes, oracle)
 }
